@@ -6,19 +6,23 @@ import Mathlib.Algebra.BigOperators.Ring.Finset
 
 Structure of the proof (`nodes = collect v 1`, `mu` the final table of `resolveAll`):
 
-* `front_diff` : on every subtree, `c * (evV τ t - search mu t)` is the sum, over the *first* own
-  nodes `h` below `t` (the `frontier`), of `gap h = reach h * (evV τ h - mu[info h])`.
-* `part_collect` : every collected node is either in the frontier of the root or in the frontier
-  of exactly one child of exactly one collected node (a purely structural identity).
-* perfect recall makes the history of a frontier node a function of where it hangs
-  (`frontier_hist`), so a sum over collected nodes weighted by a function of the history of
-  their infoset can be regrouped (`regroup_step`, `regroup_root`, `rsum_by_info`).
+* `tele` : on every subtree `t` hanging below the own history `H`,
+  `W(H) * c * (evV τ t - search mu t) = Σ_{h ∈ collect t c} W(hist (info h)) * loc h`, where
+  `W(H)` (`histW`) is the product of the own action probabilities along `H` and
+  `loc h = reach h * (τ(info h) ⬝ (search mu (kids h)) - mu[info h])` is the local deviation at
+  `h`.  Perfect recall is what makes the weight of a collected node a function of its infoset.
+* `collect_ok` : collected nodes have positive reach, the declared arity, and their children
+  extend the history of their infoset (`ROK`).
+* `search_congr`, `infoPayoffs_congr` : below an own node of infoset `I`, `search` reads only
+  table entries with index `> I` (`hord`).
 * `resolveAll_spec` : the final table satisfies, at every reached infoset `I`,
-  `mu[I] = max (infoPayoffs nodes I mu) / total I` (entries are written once, and `search` below
-  `I` only reads entries `> I`).
-* `main_step` : `D τ I = (τ(I) ⬝ infoPayoffs I - total I * mu[I]) + Σ_J χ_I(hist J) * D τ J`
-  where `D τ I = Σ_{h ∈ I} gap h`; downward induction on `I` gives `D τ I ≤ 0` for every fitting
-  strategy and `D τ* I = 0` for the strategy that puts all mass on a maximiser.
+  `mu[I] = max (infoPayoffs nodes I mu) / total I` (`SpecAt`; entries are written once).
+* `ev_sub_search` : `evV τ v - search mu v = Σ_I W(hist I) * (τ(I) ⬝ infoPayoffs I - total I * mu[I])`;
+  every bracket is `≤ 0` for a distribution `τ(I)` (`bracket_le`) and `= 0` for all mass on a
+  maximiser (`exists_best`); weights are `≥ 0`.
+
+(`front_diff`, `part_collect` — the frontier decomposition — are kept as independent structural
+facts; the final proof goes through `tele` instead.)
 -/
 set_option linter.unusedSectionVars false
 namespace Cfr
@@ -161,7 +165,7 @@ theorem dot_replicate_zero_right : ∀ (ps : List α) (n : Nat), dot ps (List.re
 theorem dot_drop (p : List α) (a : Nat) (x : α) (xs : List α) :
     dot (p.drop a) (x :: xs) = p.getD a 0 * x + dot (p.drop (a + 1)) xs := by
   by_cases h : a < p.length
-  · rw [List.drop_eq_getElem_cons h]
+  · rw [List.drop_eq_getElem_cons h, dot_cons_cons]
     simp [List.getD_eq_getElem?_getD, h]
   · have h' : p.length ≤ a := not_lt.mp h
     rw [List.drop_of_length_le h', List.drop_of_length_le (by omega)]
@@ -349,6 +353,477 @@ theorem part_collectD (φ : Reached α → α) : ∀ (ks : List (V α)) (c : α)
     rw [part_collect φ k c, part_collectD φ ks c]; ring
 end
 
+/-! ## weights of own histories -/
+
+/-- product of the own action probabilities along an own history -/
+def histW (τ : Strat α) (H : Hist) : α := (H.map (fun e => (τ.at e.1).getD e.2 0)).prod
+
+@[simp] theorem histW_nil (τ : Strat α) : histW τ [] = 1 := by simp [histW]
+
+theorem histW_snoc (τ : Strat α) (H : Hist) (i a : Nat) :
+    histW τ (H ++ [(i, a)]) = histW τ H * (τ.at i).getD a 0 := by
+  simp [histW]
+
+theorem strat_entry_nonneg {τ : Strat α} (hτ : IsStrat τ) (i a : Nat) :
+    0 ≤ (τ.at i).getD a 0 := by
+  unfold Strat.at
+  rw [List.getD_eq_getElem?_getD, List.getD_eq_getElem?_getD]
+  by_cases hi : i < τ.length
+  · have hm : τ[i] ∈ τ := List.getElem_mem hi
+    by_cases ha : a < τ[i].length
+    · have := (hτ _ hm).1 _ (List.getElem_mem ha)
+      simpa [hi, ha] using this
+    · simp [hi, ha]
+  · simp [hi]
+
+theorem histW_nonneg {τ : Strat α} (hτ : IsStrat τ) (H : Hist) : 0 ≤ histW τ H := by
+  induction H with
+  | nil => simp
+  | cons e H ih =>
+    have : histW τ (e :: H) = (τ.at e.1).getD e.2 0 * histW τ H := by simp [histW]
+    rw [this]
+    exact mul_nonneg (strat_entry_nonneg hτ _ _) ih
+
+theorem evVN_eq_dot (τ : Strat α) : ∀ (p : List α) (ks : List (V α)),
+    evVN τ p ks = dot p (ks.map (evV τ))
+  | [], ks => by simp [evVN]
+  | _ :: _, [] => by simp [evVN]
+  | p :: ps, k :: ks => by simp [evVN, evVN_eq_dot τ ps ks]
+
+/-- local deviation at a reached own node: reach times (value of playing `τ` here and reading
+`mu` below, minus `mu` here) -/
+def loc (τ : Strat α) (mu : List α) (h : Reached α) : α :=
+  h.reach * (dot (τ.at h.info) (h.kids.map (search mu)) - mu.getD h.info 0)
+
+mutual
+theorem tele (N : Nat) (nActs : Nat → Nat) (hist : Nat → Hist) (τ : Strat α) (mu : List α) :
+    ∀ (t : V α) (H : Hist) (c : α), VOK N nActs t → PRV hist H t →
+      histW τ H * (c * (evV τ t - search mu t))
+        = rsum (fun h => histW τ (hist h.info) * loc τ mu h) (collect t c)
+  | .term u, H, c, _, _ => by simp [evV, search, collect]
+  | .nature ws ks, H, c, h, hp => by
+    obtain ⟨_, hw, hk⟩ := (by simpa [VOK] using h :
+      ws.length = ks.length ∧ (∀ w ∈ ws, 0 ≤ w) ∧ VOKL N nActs ks)
+    have hp' : PRVL hist H ks := by simpa [PRV] using hp
+    simp only [evV, search, collect]
+    exact teleN N nActs hist τ mu ws ks H c hw hk hp'
+  | .decide i ks, H, c, h, hp => by
+    obtain ⟨_, _, _, hk⟩ := (by simpa [VOK] using h :
+      i < N ∧ ks.length = nActs i ∧ 1 ≤ ks.length ∧ VOKL N nActs ks)
+    obtain ⟨hH, hd⟩ := (by simpa [PRV] using hp : hist i = H ∧ PRVD hist H i 0 ks)
+    have := teleD N nActs hist τ mu ks H i 0 c hk hd
+    rw [List.drop_zero] at this
+    simp only [evV, search, collect, rsum_cons]
+    rw [← this, evVN_eq_dot]
+    simp only [loc]
+    rw [hH]; ring
+theorem teleN (N : Nat) (nActs : Nat → Nat) (hist : Nat → Hist) (τ : Strat α) (mu : List α) :
+    ∀ (ws : List α) (ks : List (V α)) (H : Hist) (c : α), (∀ w ∈ ws, 0 ≤ w) → VOKL N nActs ks →
+      PRVL hist H ks →
+      histW τ H * (c * (evVN τ ws ks - searchN mu ws ks))
+        = rsum (fun h => histW τ (hist h.info) * loc τ mu h) (collectN ws ks c)
+  | [], ks, H, c, _, _, _ => by simp [evVN, searchN, collectN]
+  | _ :: _, [], H, c, _, _, _ => by simp [evVN, searchN, collectN]
+  | w :: ws, k :: ks, H, c, hw, hk, hp => by
+    obtain ⟨h1, h2⟩ := (by simpa [VOKL] using hk : VOK N nActs k ∧ VOKL N nActs ks)
+    obtain ⟨p1, p2⟩ := (by simpa [PRVL] using hp : PRV hist H k ∧ PRVL hist H ks)
+    have a := tele N nActs hist τ mu k H (w * c) h1 p1
+    have b := teleN N nActs hist τ mu ws ks H c (fun w hw' => hw w (by simp [hw'])) h2 p2
+    have hw0 : 0 ≤ w := hw w (by simp)
+    simp only [evVN, searchN, collectN, rsum_append]
+    rw [← b]
+    by_cases hp : 0 < w
+    · simp only [hp, if_true]
+      rw [← a]; ring
+    · have : w = 0 := le_antisymm (not_lt.mp hp) hw0
+      subst this
+      simp
+theorem teleD (N : Nat) (nActs : Nat → Nat) (hist : Nat → Hist) (τ : Strat α) (mu : List α) :
+    ∀ (ks : List (V α)) (H : Hist) (i a : Nat) (c : α), VOKL N nActs ks → PRVD hist H i a ks →
+      histW τ H * (c * (dot ((τ.at i).drop a) (ks.map (evV τ))
+          - dot ((τ.at i).drop a) (ks.map (search mu))))
+        = rsum (fun h => histW τ (hist h.info) * loc τ mu h) (collectD ks c)
+  | [], H, i, a, c, _, _ => by simp [collectD]
+  | k :: ks, H, i, a, c, hk, hp => by
+    obtain ⟨h1, h2⟩ := (by simpa [VOKL] using hk : VOK N nActs k ∧ VOKL N nActs ks)
+    obtain ⟨p1, p2⟩ := (by simpa [PRVD] using hp :
+      PRV hist (H ++ [(i, a)]) k ∧ PRVD hist H i (a + 1) ks)
+    have a' := tele N nActs hist τ mu k (H ++ [(i, a)]) c h1 p1
+    have b := teleD N nActs hist τ mu ks H i (a + 1) c h2 p2
+    simp only [collectD, rsum_append, List.map_cons, dot_drop]
+    rw [← a', ← b, histW_snoc]; ring
+end
+
+/-! ## what is known about collected nodes -/
+
+/-- a reached own node of a well-formed view with perfect recall -/
+def ROK (N : Nat) (nActs : Nat → Nat) (hist : Nat → Hist) (h : Reached α) : Prop :=
+  h.info < N ∧ h.kids.length = nActs h.info ∧ 0 < h.reach ∧ VOKL N nActs h.kids ∧
+    PRVD hist (hist h.info) h.info 0 h.kids
+
+mutual
+theorem collect_ok (N : Nat) (nActs : Nat → Nat) (hist : Nat → Hist) :
+    ∀ (t : V α) (H : Hist) (c : α), 0 < c → VOK N nActs t → PRV hist H t →
+      ∀ h ∈ collect t c, ROK N nActs hist h
+  | .term u, H, c, _, _, _ => by simp [collect]
+  | .nature ws ks, H, c, hc, h, hp => by
+    obtain ⟨_, hw, hk⟩ := (by simpa [VOK] using h :
+      ws.length = ks.length ∧ (∀ w ∈ ws, 0 ≤ w) ∧ VOKL N nActs ks)
+    have hp' : PRVL hist H ks := by simpa [PRV] using hp
+    simp only [collect]
+    exact collectN_ok N nActs hist ws ks H c hc hk hp'
+  | .decide i ks, H, c, hc, h, hp => by
+    obtain ⟨h1, h2, _, hk⟩ := (by simpa [VOK] using h :
+      i < N ∧ ks.length = nActs i ∧ 1 ≤ ks.length ∧ VOKL N nActs ks)
+    obtain ⟨hH, hd⟩ := (by simpa [PRV] using hp : hist i = H ∧ PRVD hist H i 0 ks)
+    intro x hx
+    simp only [collect, List.mem_cons] at hx
+    rcases hx with rfl | hx
+    · exact ⟨h1, h2, hc, hk, by rw [hH]; exact hd⟩
+    · exact collectD_ok N nActs hist ks H i 0 c hc hk hd x hx
+theorem collectN_ok (N : Nat) (nActs : Nat → Nat) (hist : Nat → Hist) :
+    ∀ (ws : List α) (ks : List (V α)) (H : Hist) (c : α), 0 < c → VOKL N nActs ks →
+      PRVL hist H ks → ∀ h ∈ collectN ws ks c, ROK N nActs hist h
+  | [], ks, H, c, _, _, _ => by simp [collectN]
+  | _ :: _, [], H, c, _, _, _ => by simp [collectN]
+  | w :: ws, k :: ks, H, c, hc, hk, hp => by
+    obtain ⟨h1, h2⟩ := (by simpa [VOKL] using hk : VOK N nActs k ∧ VOKL N nActs ks)
+    obtain ⟨p1, p2⟩ := (by simpa [PRVL] using hp : PRV hist H k ∧ PRVL hist H ks)
+    intro x hx
+    simp only [collectN, List.mem_append] at hx
+    rcases hx with hx | hx
+    · by_cases hw : 0 < w
+      · simp only [hw, if_true] at hx
+        exact collect_ok N nActs hist k H (w * c) (mul_pos hw hc) h1 p1 x hx
+      · simp [hw] at hx
+    · exact collectN_ok N nActs hist ws ks H c hc h2 p2 x hx
+theorem collectD_ok (N : Nat) (nActs : Nat → Nat) (hist : Nat → Hist) :
+    ∀ (ks : List (V α)) (H : Hist) (i a : Nat) (c : α), 0 < c → VOKL N nActs ks →
+      PRVD hist H i a ks → ∀ h ∈ collectD ks c, ROK N nActs hist h
+  | [], H, i, a, c, _, _, _ => by simp [collectD]
+  | k :: ks, H, i, a, c, hc, hk, hp => by
+    obtain ⟨h1, h2⟩ := (by simpa [VOKL] using hk : VOK N nActs k ∧ VOKL N nActs ks)
+    obtain ⟨p1, p2⟩ := (by simpa [PRVD] using hp :
+      PRV hist (H ++ [(i, a)]) k ∧ PRVD hist H i (a + 1) ks)
+    intro x hx
+    simp only [collectD, List.mem_append] at hx
+    rcases hx with hx | hx
+    · exact collect_ok N nActs hist k _ c hc h1 p1 x hx
+    · exact collectD_ok N nActs hist ks H i (a + 1) c hc h2 p2 x hx
+end
+
+/-! ## `search` reads only the entries of the next own infosets -/
+
+mutual
+theorem search_congr (hist : Nat → Hist) (mu mu' : List α) :
+    ∀ (t : V α) (H : Hist), PRV hist H t →
+      (∀ j, hist j = H → mu.getD j 0 = mu'.getD j 0) → search mu t = search mu' t
+  | .term u, H, _, _ => by simp [search]
+  | .nature ws ks, H, hp, he => by
+    have hp' : PRVL hist H ks := by simpa [PRV] using hp
+    simp only [search]
+    exact searchN_congr hist mu mu' ws ks H hp' he
+  | .decide i ks, H, hp, he => by
+    obtain ⟨hH, _⟩ := (by simpa [PRV] using hp : hist i = H ∧ PRVD hist H i 0 ks)
+    simp only [search]
+    exact he i hH
+theorem searchN_congr (hist : Nat → Hist) (mu mu' : List α) :
+    ∀ (ws : List α) (ks : List (V α)) (H : Hist), PRVL hist H ks →
+      (∀ j, hist j = H → mu.getD j 0 = mu'.getD j 0) → searchN mu ws ks = searchN mu' ws ks
+  | [], ks, H, _, _ => by simp [searchN]
+  | _ :: _, [], H, _, _ => by simp [searchN]
+  | w :: ws, k :: ks, H, hp, he => by
+    obtain ⟨p1, p2⟩ := (by simpa [PRVL] using hp : PRV hist H k ∧ PRVL hist H ks)
+    simp only [searchN]
+    rw [search_congr hist mu mu' k H p1 he, searchN_congr hist mu mu' ws ks H p2 he]
+end
+
+/-- below an own node of infoset `i`, `search` reads only entries with index `> i` -/
+theorem addPayoffs_congr (hist : Nat → Hist) (hord : ∀ i, ∀ e ∈ hist i, e.1 < i)
+    (mu mu' : List α) (r : α) (i : Nat) (he : ∀ j, i < j → mu.getD j 0 = mu'.getD j 0) :
+    ∀ (ks : List (V α)) (acc : List α) (H : Hist) (a : Nat), PRVD hist H i a ks →
+      addPayoffs mu r acc ks = addPayoffs mu' r acc ks
+  | [], acc, H, a, _ => by cases acc <;> simp [addPayoffs]
+  | k :: ks, [], H, a, _ => by simp [addPayoffs]
+  | k :: ks, x :: acc, H, a, hp => by
+    obtain ⟨p1, p2⟩ := (by simpa [PRVD] using hp :
+      PRV hist (H ++ [(i, a)]) k ∧ PRVD hist H i (a + 1) ks)
+    simp only [addPayoffs]
+    rw [addPayoffs_congr hist hord mu mu' r i he ks acc H (a + 1) p2,
+      search_congr hist mu mu' k _ p1 (fun j hj => he j (by
+        have := hord j (i, a) (by rw [hj]; simp)
+        exact this))]
+
+theorem addPayoffs_length (mu : List α) (r : α) : ∀ (acc : List α) (ks : List (V α)),
+    (addPayoffs mu r acc ks).length = acc.length
+  | [], ks => by simp [addPayoffs]
+  | _ :: _, [] => by simp [addPayoffs]
+  | x :: acc, k :: ks => by simp [addPayoffs, addPayoffs_length mu r acc ks]
+
+theorem dot_addPayoffs (mu : List α) (r : α) : ∀ (p acc : List α) (ks : List (V α)),
+    acc.length = ks.length →
+      dot p (addPayoffs mu r acc ks) = dot p acc + r * dot p (ks.map (search mu))
+  | p, [], [], _ => by simp [addPayoffs]
+  | p, [], _ :: _, h => by simp at h
+  | p, _ :: _, [], h => by simp at h
+  | [], x :: acc, k :: ks, _ => by simp
+  | q :: p, x :: acc, k :: ks, h => by
+    have ih := dot_addPayoffs mu r p acc ks (by simpa using h)
+    simp only [addPayoffs, List.map_cons, dot_cons_cons, ih]
+    ring
+
+/-- the nodes of infoset `I` -/
+def mine (nodes : List (Reached α)) (I : Nat) : List (Reached α) :=
+  nodes.filter (fun n => n.info == I)
+
+theorem mem_mine {nodes : List (Reached α)} {I : Nat} {h : Reached α} :
+    h ∈ mine nodes I ↔ h ∈ nodes ∧ h.info = I := by
+  simp [mine]
+
+theorem infoPayoffs_eq (nodes : List (Reached α)) (n I : Nat) (mu : List α) :
+    infoPayoffs nodes n I mu
+      = (mine nodes I).foldl (fun acc h => addPayoffs mu h.reach acc h.kids) (List.replicate n 0) :=
+  rfl
+
+theorem foldl_addPayoffs_length (mu : List α) : ∀ (l : List (Reached α)) (acc : List α),
+    (l.foldl (fun acc h => addPayoffs mu h.reach acc h.kids) acc).length = acc.length
+  | [], acc => by simp
+  | x :: l, acc => by
+    simp only [List.foldl_cons]
+    rw [foldl_addPayoffs_length mu l, addPayoffs_length]
+
+theorem infoPayoffs_length (nodes : List (Reached α)) (n I : Nat) (mu : List α) :
+    (infoPayoffs nodes n I mu).length = n := by
+  rw [infoPayoffs_eq, foldl_addPayoffs_length]; simp
+
+theorem dot_foldl_addPayoffs (mu : List α) (p : List α) : ∀ (l : List (Reached α)) (acc : List α),
+    (∀ h ∈ l, h.kids.length = acc.length) →
+    dot p (l.foldl (fun acc h => addPayoffs mu h.reach acc h.kids) acc)
+      = dot p acc + rsum (fun h => h.reach * dot p (h.kids.map (search mu))) l
+  | [], acc, _ => by simp
+  | x :: l, acc, hl => by
+    simp only [List.foldl_cons, rsum_cons]
+    rw [dot_foldl_addPayoffs mu p l _ (fun h hh => by
+        rw [addPayoffs_length]; exact hl h (by simp [hh])),
+      dot_addPayoffs mu x.reach p acc x.kids (hl x (by simp)).symm]
+    ring
+
+theorem foldl_addPayoffs_congr (hist : Nat → Hist) (hord : ∀ i, ∀ e ∈ hist i, e.1 < i)
+    (mu mu' : List α) (I : Nat) (he : ∀ j, I < j → mu.getD j 0 = mu'.getD j 0) :
+    ∀ (l : List (Reached α)) (acc : List α),
+      (∀ h ∈ l, h.info = I ∧ PRVD hist (hist h.info) h.info 0 h.kids) →
+      l.foldl (fun acc h => addPayoffs mu h.reach acc h.kids) acc
+        = l.foldl (fun acc h => addPayoffs mu' h.reach acc h.kids) acc
+  | [], acc, _ => by simp
+  | x :: l, acc, hl => by
+    simp only [List.foldl_cons]
+    obtain ⟨hx, hp⟩ := hl x (by simp)
+    rw [addPayoffs_congr hist hord mu mu' x.reach x.info (by rw [hx]; exact he) x.kids acc _ 0 hp]
+    exact foldl_addPayoffs_congr hist hord mu mu' I he l _ (fun h hh => hl h (by simp [hh]))
+
+theorem infoPayoffs_congr (N : Nat) (nActs : Nat → Nat) (hist : Nat → Hist)
+    (hord : ∀ i, ∀ e ∈ hist i, e.1 < i) (nodes : List (Reached α))
+    (hn : ∀ h ∈ nodes, ROK N nActs hist h) (n I : Nat) (mu mu' : List α)
+    (he : ∀ j, I < j → mu.getD j 0 = mu'.getD j 0) :
+    infoPayoffs nodes n I mu = infoPayoffs nodes n I mu' := by
+  rw [infoPayoffs_eq, infoPayoffs_eq]
+  apply foldl_addPayoffs_congr hist hord mu mu' I he
+  intro h hh
+  obtain ⟨h1, h2⟩ := mem_mine.mp hh
+  exact ⟨h2, (hn h h1).2.2.2.2⟩
+
+theorem dot_infoPayoffs (N : Nat) (nActs : Nat → Nat) (hist : Nat → Hist)
+    (nodes : List (Reached α)) (hn : ∀ h ∈ nodes, ROK N nActs hist h) (I : Nat) (mu p : List α) :
+    dot p (infoPayoffs nodes (nActs I) I mu)
+      = rsum (fun h => h.reach * dot p (h.kids.map (search mu))) (mine nodes I) := by
+  rw [infoPayoffs_eq, dot_foldl_addPayoffs]
+  · rw [dot_replicate_zero_right]; ring
+  · intro h hh
+    obtain ⟨h1, h2⟩ := mem_mine.mp hh
+    rw [(hn h h1).2.1, h2]; simp
+
+
+/-! ## the table computed by `resolveAll` -/
+
+/-- total reach of infoset `I` -/
+def total (nodes : List (Reached α)) (I : Nat) : α := rsum (fun h => h.reach) (mine nodes I)
+
+theorem resolveOne_eq (nodes : List (Reached α)) (n I : Nat) (mu : List α) :
+    resolveOne nodes n I mu =
+      if (mine nodes I).isEmpty then mu else
+        match maxList (infoPayoffs nodes n I mu) with
+        | some m => mu.set I (m / total nodes I)
+        | none => mu := by
+  unfold resolveOne total mine rsum
+  simp only [lsum_eq_sum]
+  rfl
+
+theorem resolveOne_length (nodes : List (Reached α)) (n I : Nat) (mu : List α) :
+    (resolveOne nodes n I mu).length = mu.length := by
+  rw [resolveOne_eq]
+  split_ifs
+  · rfl
+  · split <;> simp
+
+theorem resolveOne_getD_ne (nodes : List (Reached α)) (n I : Nat) (mu : List α) (j : Nat)
+    (hj : j ≠ I) : (resolveOne nodes n I mu).getD j 0 = mu.getD j 0 := by
+  rw [resolveOne_eq]
+  split_ifs
+  · rfl
+  · split
+    · rw [List.getD_eq_getElem?_getD, List.getD_eq_getElem?_getD, List.getElem?_set_ne (Ne.symm hj)]
+    · rfl
+
+theorem resolveAll_length (nodes : List (Reached α)) (nActs : Nat → Nat) :
+    ∀ (n : Nat) (mu : List α), (resolveAll nodes nActs n mu).length = mu.length
+  | 0, mu => by simp [resolveAll]
+  | n + 1, mu => by
+    simp only [resolveAll]
+    rw [resolveAll_length nodes nActs n, resolveOne_length]
+
+theorem resolveAll_getD_ge (nodes : List (Reached α)) (nActs : Nat → Nat) :
+    ∀ (n : Nat) (mu : List α) (j : Nat), n ≤ j →
+      (resolveAll nodes nActs n mu).getD j 0 = mu.getD j 0
+  | 0, mu, j, _ => by simp [resolveAll]
+  | n + 1, mu, j, hj => by
+    simp only [resolveAll]
+    rw [resolveAll_getD_ge nodes nActs n _ j (by omega), resolveOne_getD_ne _ _ _ _ _ (by omega)]
+
+/-- the fixed-point equation at infoset `I`: if `I` is reached, `mu[I]` is the largest
+per-action counterfactual value divided by the total reach -/
+def SpecAt (nodes : List (Reached α)) (nActs : Nat → Nat) (mu : List α) (I : Nat) : Prop :=
+  mine nodes I ≠ [] →
+    ∃ m, m ∈ infoPayoffs nodes (nActs I) I mu ∧ (∀ x ∈ infoPayoffs nodes (nActs I) I mu, x ≤ m) ∧
+      mu.getD I 0 = m / total nodes I
+
+theorem resolveOne_spec (nodes : List (Reached α)) (nActs : Nat → Nat) (I : Nat) (mu : List α)
+    (hI : I < mu.length) (hpos : 1 ≤ nActs I)
+    (hc : infoPayoffs nodes (nActs I) I (resolveOne nodes (nActs I) I mu)
+      = infoPayoffs nodes (nActs I) I mu) :
+    SpecAt nodes nActs (resolveOne nodes (nActs I) I mu) I := by
+  intro hne
+  have hP : infoPayoffs nodes (nActs I) I mu ≠ [] := by
+    intro h
+    have := infoPayoffs_length nodes (nActs I) I mu
+    rw [h] at this; simp at this; omega
+  obtain ⟨m, hm, h1, h2⟩ := maxList_spec _ hP
+  refine ⟨m, by rw [hc]; exact h1, by rw [hc]; exact h2, ?_⟩
+  rw [resolveOne_eq]
+  have : (mine nodes I).isEmpty = false := by
+    cases hm' : mine nodes I with
+    | nil => exact absurd hm' hne
+    | cons _ _ => rfl
+  rw [this, hm]
+  simp [List.getD_eq_getElem?_getD, hI]
+
+theorem resolveAll_spec (N : Nat) (nActs : Nat → Nat) (hist : Nat → Hist)
+    (hord : ∀ i, ∀ e ∈ hist i, e.1 < i) (hpos : ∀ i, i < N → 1 ≤ nActs i)
+    (nodes : List (Reached α)) (hn : ∀ h ∈ nodes, ROK N nActs hist h) :
+    ∀ (n : Nat) (mu : List α), n ≤ N → mu.length = N →
+      ∀ I, I < n → SpecAt nodes nActs (resolveAll nodes nActs n mu) I
+  | 0, mu, _, _, I, hI => by omega
+  | n + 1, mu, hnN, hl, I, hI => by
+    simp only [resolveAll]
+    by_cases hIn : I < n
+    · exact resolveAll_spec N nActs hist hord hpos nodes hn n _ (by omega)
+        (by rw [resolveOne_length, hl]) I hIn
+    · have hIn' : I = n := by omega
+      subst hIn'
+      have s1 := resolveOne_spec nodes nActs I mu (by omega) (hpos I (by omega))
+        (infoPayoffs_congr N nActs hist hord nodes hn _ I _ _
+          (fun j hj => resolveOne_getD_ne _ _ _ _ _ (by omega)))
+      intro hne
+      obtain ⟨m, h1, h2, h3⟩ := s1 hne
+      have hc := infoPayoffs_congr N nActs hist hord nodes hn (nActs I) I
+        (resolveAll nodes nActs I (resolveOne nodes (nActs I) I mu))
+        (resolveOne nodes (nActs I) I mu)
+        (fun j hj => resolveAll_getD_ge nodes nActs I _ j (by omega))
+      refine ⟨m, by rw [hc]; exact h1, by rw [hc]; exact h2, ?_⟩
+      rw [resolveAll_getD_ge nodes nActs I _ I (le_refl _)]
+      exact h3
+
+theorem total_pos (N : Nat) (nActs : Nat → Nat) (hist : Nat → Hist)
+    (nodes : List (Reached α)) (hn : ∀ h ∈ nodes, ROK N nActs hist h) (I : Nat)
+    (hne : mine nodes I ≠ []) : 0 < total nodes I := by
+  unfold total
+  apply rsum_pos
+  · intro h hh
+    exact le_of_lt (hn h (mem_mine.mp hh).1).2.2.1
+  · cases hm : mine nodes I with
+    | nil => exact absurd hm hne
+    | cons x l =>
+      have hx : x ∈ mine nodes I := by rw [hm]; simp
+      exact ⟨x, by simp, (hn x (mem_mine.mp hx).1).2.2.1⟩
+
+/-- the local deviations of the nodes of one infoset, summed -/
+theorem rsum_loc_mine (N : Nat) (nActs : Nat → Nat) (hist : Nat → Hist)
+    (nodes : List (Reached α)) (hn : ∀ h ∈ nodes, ROK N nActs hist h) (τ : Strat α)
+    (mu : List α) (I : Nat) :
+    rsum (loc τ mu) (mine nodes I)
+      = dot (τ.at I) (infoPayoffs nodes (nActs I) I mu) - total nodes I * mu.getD I 0 := by
+  rw [dot_infoPayoffs N nActs hist nodes hn, total, ← rsum_mul_right, ← rsum_sub]
+  apply rsum_congr
+  intro h hh
+  rw [loc, (mem_mine.mp hh).2]; ring
+
+/-! ## assembling -/
+
+/-- the expected value of `τ` minus the table value at the root, infoset by infoset: the
+weight of the own history of the infoset times its summed local deviation -/
+theorem ev_sub_search (N : Nat) (nActs : Nat → Nat) (hist : Nat → Hist) (v : V α)
+    (hok : VOK N nActs v) (hpr : PRV hist [] v) (τ : Strat α) (mu : List α) :
+    evV τ v - search mu v = ∑ J ∈ Finset.range N, histW τ (hist J) *
+      (dot (τ.at J) (infoPayoffs (collect v 1) (nActs J) J mu)
+        - total (collect v 1) J * mu.getD J 0) := by
+  have hn := collect_ok N nActs hist v [] 1 one_pos hok hpr
+  have t := tele N nActs hist τ mu v [] 1 hok hpr
+  rw [histW_nil, one_mul, one_mul] at t
+  rw [t, rsum_by_info N (fun J => histW τ (hist J)) (loc τ mu) _ (fun n h => (hn n h).1)]
+  apply Finset.sum_congr rfl
+  intro J _
+  rw [← rsum_loc_mine N nActs hist _ hn τ mu J, mine, rsum_filter]
+  congr 1
+  apply rsum_congr
+  intro n _
+  simp
+
+theorem bracket_le (N : Nat) (nActs : Nat → Nat) (hist : Nat → Hist)
+    (nodes : List (Reached α)) (hn : ∀ h ∈ nodes, ROK N nActs hist h) (mu : List α) (J : Nat)
+    (spec : SpecAt nodes nActs mu J) (p : List α) (hp : IsDist p) (hl : p.length = nActs J) :
+    dot p (infoPayoffs nodes (nActs J) J mu) - total nodes J * mu.getD J 0 ≤ 0 := by
+  by_cases hne : mine nodes J = []
+  · rw [dot_infoPayoffs N nActs hist nodes hn, total, hne]; simp
+  · obtain ⟨m, _, h2, h3⟩ := spec hne
+    have ht := total_pos N nActs hist nodes hn J hne
+    have hd := dot_le_sum_mul m p _ hp.1 h2 (by rw [hl, infoPayoffs_length])
+    rw [hp.2, one_mul] at hd
+    rw [h3, mul_div_cancel₀ _ (ne_of_gt ht)]
+    linarith
+
+theorem exists_best (N : Nat) (nActs : Nat → Nat) (hist : Nat → Hist)
+    (nodes : List (Reached α)) (hn : ∀ h ∈ nodes, ROK N nActs hist h) (mu : List α) (J : Nat)
+    (spec : SpecAt nodes nActs mu J) (hpos : 1 ≤ nActs J) :
+    ∃ p : List α, IsDist p ∧ p.length = nActs J ∧
+      dot p (infoPayoffs nodes (nActs J) J mu) - total nodes J * mu.getD J 0 = 0 := by
+  have hlen := infoPayoffs_length nodes (nActs J) J mu
+  by_cases hne : mine nodes J = []
+  · cases hP : infoPayoffs nodes (nActs J) J mu with
+    | nil => rw [hP] at hlen; simp at hlen; omega
+    | cons x xs =>
+      obtain ⟨p, hp, hl, _⟩ := exists_onehot (x :: xs) x (by simp)
+      refine ⟨p, hp, by rw [hl, ← hP, hlen], ?_⟩
+      rw [← hP, dot_infoPayoffs N nActs hist nodes hn, total, hne]; simp
+  · obtain ⟨m, h1, _, h3⟩ := spec hne
+    have ht := total_pos N nActs hist nodes hn J hne
+    obtain ⟨p, hp, hl, hd⟩ := exists_onehot _ m h1
+    refine ⟨p, hp, by rw [hl, hlen], ?_⟩
+    rw [hd, h3, mul_div_cancel₀ _ (ne_of_gt ht)]; ring
+
+theorem at_mem {τ : Strat α} {i : Nat} (hi : i < τ.length) : τ.at i ∈ τ := by
+  unfold Strat.at
+  rw [List.getD_eq_getElem?_getD]
+  simp [hi]
+
 /-- **Main theorem.**  On a well-formed view with perfect recall whose infosets are numbered so
 that earlier own decisions have smaller indices, the value computed by `bestResponse` (collect
 the reached own nodes, resolve the infosets in decreasing index order, evaluate the root)
@@ -359,6 +834,49 @@ theorem bestResponse_optimal (N : Nat) (nActs : Nat → Nat) (v : V α) (hist : 
     (hpos : ∀ i, i < N → 1 ≤ nActs i) :
     (∀ τ : Strat α, StratOK N nActs τ → evV τ v ≤ bestResponse N nActs v) ∧
     (∃ τ : Strat α, StratOK N nActs τ ∧ evV τ v = bestResponse N nActs v) := by
-  sorry
+  have hn := collect_ok N nActs hist v [] 1 one_pos hok hpr
+  have spec := resolveAll_spec N nActs hist hord hpos (collect v 1) hn N (List.replicate N 0)
+    (le_refl _) (by simp)
+  have hbr : bestResponse N nActs v
+      = search (resolveAll (collect v 1) nActs N (List.replicate N 0)) v := rfl
+  rw [hbr]
+  generalize resolveAll (collect v 1) nActs N (List.replicate N 0) = mu at spec
+  constructor
+  · intro τ ⟨hlen, hl, hs⟩
+    have := ev_sub_search N nActs hist v hok hpr τ mu
+    have : evV τ v - search mu v ≤ 0 := by
+      rw [this]
+      apply Finset.sum_nonpos
+      intro J hJ
+      have hJ' : J < N := Finset.mem_range.mp hJ
+      exact mul_nonpos_of_nonneg_of_nonpos (histW_nonneg hs _)
+        (bracket_le N nActs hist _ hn mu J (spec J hJ') _ (hs _ (at_mem (by omega))) (hl J hJ'))
+    linarith
+  · have key : ∀ J, ∃ p : List α, J < N → (IsDist p ∧ p.length = nActs J ∧
+        dot p (infoPayoffs (collect v 1) (nActs J) J mu)
+          - total (collect v 1) J * mu.getD J 0 = 0) := by
+      intro J
+      by_cases hJ : J < N
+      · obtain ⟨p, hp⟩ := exists_best N nActs hist _ hn mu J (spec J hJ) (hpos J hJ)
+        exact ⟨p, fun _ => hp⟩
+      · exact ⟨[], fun h => absurd h hJ⟩
+    choose f hf using key
+    have hat : ∀ J, J < N → Strat.at ((List.range N).map f) J = f J := by
+      intro J hJ
+      simp [Strat.at, List.getD_eq_getElem?_getD, hJ]
+    refine ⟨(List.range N).map f, ⟨by simp, ?_, ?_⟩, ?_⟩
+    · intro i hi
+      rw [hat i hi]; exact (hf i hi).2.1
+    · intro p hp
+      obtain ⟨J, hJ, rfl⟩ := List.mem_map.mp hp
+      exact (hf J (List.mem_range.mp hJ)).1
+    · have := ev_sub_search N nActs hist v hok hpr ((List.range N).map f) mu
+      have : evV ((List.range N).map f) v - search mu v = 0 := by
+        rw [this]
+        apply Finset.sum_eq_zero
+        intro J hJ
+        have hJ' : J < N := Finset.mem_range.mp hJ
+        rw [hat J hJ', (hf J hJ').2.2, mul_zero]
+      linarith
 
 end Cfr
